@@ -80,7 +80,7 @@ pub struct Case {
 /// documented `\#` / `\!` / `\ ` escapes and a name ending in `.` are in the
 /// tail.
 const NAMES: &[&str] = &[
-    "a", "b", "c", "A", "B", "x.rs", "y.txt", "z.o", "a.b", "a-b", "ab", ".h", ".hd", "foo.", "*.rs", "[a]", "a?", "a b", "#c", "!c", "a ",
+    "a", "b", "c", "A", "B", "x.rs", "y.txt", "z.o", "a.b", "a-b", "ab", ".h", ".hd", "foo.", "*.rs", "[a]", "a?", "a b", "#c", "!c", "a ", "a ?", "c *",
 ];
 
 fn pick_name(t: &mut Tape) -> &'static str {
@@ -1722,7 +1722,7 @@ fn check_budgeted(pc: &PropCtx, case: &Case) -> Verdict {
 
 pub fn run(pc: &PropCtx) {
     pc.rule(
-        "each case is a generated git repository (`git init` in a scratch directory): a tree <= 4 levels deep with 1-5 entries per directory, names from {a,b,c,A,B,x.rs,y.txt,z.o,a.b,a-b,ab,.h,.hd,foo.,*.rs,[a],a?,'a b',#c,!c,'a '}; 1-4 .gitignore files (normally one at the root, the rest in random directories) of 1-6 lines each. Lines are derived from paths that exist below the ignore file (6/7) or invented paths (1/7): basename only, full relative path, path suffix, **/tail, head/**, head/**/tail, bare wildcards; every segment literal-escaped, raw, with * / ? / bracket class (plain, range, negated with ! or ^) substituted, case-flipped, needlessly escaped, or with ** directly followed by an ordinary character ('regular asterisks'); optionally a wildcard or class where a separator belongs; optional leading /, trailing /, !, \\# \\! and '\\ ' escapes, trailing blanks; comment, blank and blanks-only lines; last line optionally unterminated; a deeper file repeats, with probability 1/3 per line, an unanchored pattern of a shallower file with the negation toggled. Per repository both oracles are evaluated: (1) rg --files vs git ls-files --others --exclude-standard with all ignore files, (2) Gitignore::matched_path_or_any_parents vs git check-ignore --no-index -v -n for every file and ancestor directory with the root-level ignore file alone. 1/4 of the cases pair --ignore-file-case-insensitive with git -c core.ignorecase=true. rg is pointed at the repository as cwd, ./, relative directory or absolute directory (all with --no-ignore-parent), or (18%) both rg and git ls-files run inside a subdirectory of the repository, rg without --no-ignore-parent, so that the ignore files above the search root apply (cases whose search root lies inside an ignored directory are rejected: git lists nothing there, rg never ignores its search root); -j1 or -j2. Non-trivial = with all ignore files in place git ignores at least one tree file and keeps at least one; distinct by hash of the case",
+        "each case is a generated git repository (`git init` in a scratch directory): a tree <= 4 levels deep with 1-5 entries per directory, names from {a,b,c,A,B,x.rs,y.txt,z.o,a.b,a-b,ab,.h,.hd,foo.,*.rs,[a],a?,'a b',#c,!c,'a ','a ?','c *'}; 1-4 .gitignore files (normally one at the root, the rest in random directories) of 1-6 lines each. Lines are derived from paths that exist below the ignore file (6/7) or invented paths (1/7): basename only, full relative path, path suffix, **/tail, head/**, head/**/tail, bare wildcards; every segment literal-escaped, raw, with * / ? / bracket class (plain, range, negated with ! or ^) substituted, case-flipped, needlessly escaped, or with ** directly followed by an ordinary character ('regular asterisks'); optionally a wildcard or class where a separator belongs; optional leading /, trailing /, !, \\# \\! and '\\ ' escapes, trailing blanks; comment, blank and blanks-only lines; last line optionally unterminated; a deeper file repeats, with probability 1/3 per line, an unanchored pattern of a shallower file with the negation toggled. Per repository both oracles are evaluated: (1) rg --files vs git ls-files --others --exclude-standard with all ignore files, (2) Gitignore::matched_path_or_any_parents vs git check-ignore --no-index -v -n for every file and ancestor directory with the root-level ignore file alone. 1/4 of the cases pair --ignore-file-case-insensitive with git -c core.ignorecase=true. rg is pointed at the repository as cwd, ./, relative directory or absolute directory (all with --no-ignore-parent), or (18%) both rg and git ls-files run inside a subdirectory of the repository, rg without --no-ignore-parent, so that the ignore files above the search root apply (cases whose search root lies inside an ignored directory are rejected: git lists nothing there, rg never ignores its search root); -j1 or -j2. Non-trivial = with all ignore files in place git ignores at least one tree file and keeps at least one; distinct by hash of the case",
     );
     pc.assume("git 2.39 (`ls-files --others --exclude-standard`, `check-ignore --no-index -v -n`) is the reference semantics of gitignore files; it runs with an empty environment, GIT_CONFIG_NOSYSTEM=1, GIT_CONFIG_GLOBAL=/dev/null, HOME/XDG_CONFIG_HOME inside the scratch directory (no global excludes file exists there), `git init --template=` (no info/exclude)");
     pc.assume("domain exclusions (behaviour `man gitignore` / fnmatch(3) do not define): a trailing unescaped backslash, unclosed brackets, POSIX [[:class:]] / backslash inside brackets, runs of three or more asterisks, empty segments (`//`), `!` or `/` alone, leading blanks, CR line ends, non-UTF-8 pattern bytes; symlinks, empty directories and nested repositories are not generated");
